@@ -119,8 +119,11 @@ def _model_check(ctx):
 
     def one(run):
         name, title, (mod, cfg, files), cover = run
+        # one worker for the run that is expected to end in a counterexample: breadth-first
+        # search with one worker returns the same, shortest one every time
+        workers = 1 if 'NewerKept' in title else (6 if quick else 8)
         return tlc.mc(SPEC_DIR, mod, cfg, extra_files=files, coverage=cover,
-                      workers=6 if quick else 8, timeout=120 if quick else 700)
+                      workers=workers, timeout=120 if quick else 700)
     with concurrent.futures.ThreadPoolExecutor(3) as ex:
         results = list(ex.map(one, runs))
     for (name, title, _f, cover), res in zip(runs, results):
@@ -343,6 +346,7 @@ def judge(ctx, traces, verdicts, extra=None):
     evaluations = 0
     drift_traces = set()
     drift_examples = []
+    drifting = {v['tid'] for v in verdicts if any(f.startswith('drift.') for f in v['fail'])}
     for v in verdicts:
         t = by_tid[v['tid']]
         fails = set(v['fail'])
@@ -364,8 +368,15 @@ def judge(ctx, traces, verdicts, extra=None):
                 if (t['tid'], f) not in seen_bad:
                     seen_bad.add((t['tid'], f))
                     violating['%s %s' % (f, t['src'].split(':')[0])] += 1
+                # the recorded finding is "the unchanged code's own, modelled behaviour
+                # (Defects = {olderSteals}) lets an older container take over": a
+                # newerKept violation in a trace the as-is model does NOT explain is a
+                # different defect and is reported
+                sig = f
+                if f == PROP + '.newerKept':
+                    sig = f + (':drift' if t['tid'] in drifting else ':asis')
                 violations.append(dict(
-                    clause=f, signature=f,
+                    clause=f, signature=sig,
                     what='at line %d of %s (%s): %s' % (v['i'], t['tid'], t['src'], _show(line)),
                     replay_payload=dict(kind='presence', property=PROP, clause=f,
                                         scenario=t['scenario'], schedule=t['schedule'],
